@@ -38,7 +38,15 @@ def lattice_defn(points):
            "pts": [{"x": rat(0), "y": rat(1, 2)}, {"x": rat(4), "y": rat(9)}, {"x": rat(8), "y": rat(-3)}]}
     if "SplineCalibrator.order" in points or "SplineCalibrator.extrapolate" in points:
         dc = "spline"
-    default = {"none": {"k": "none"}, "poly": poly([(rat(1, 2), 0), (rat(3), 1), (rat(-1, 4), 2)]), "spline": spl}[dc]
+    # numbers that need every digit of a double (2^-16, 123456789/1024, -(2^40+1)/2^20, 0.1 as stored): written and read back exactly
+    from fractions import Fraction as _F
+    tenth = _F(0.1)
+    long_poly = poly([(rat(123456789, 1024), 0), (rat(1, 65536), 1), (rat(-(2 ** 40 + 1), 2 ** 20), 2)])
+    long_poly["terms"].append({"c": {"num": tenth.numerator, "den": tenth.denominator}, "e": 3})
+    long_spl = dict(spl, pts=[{"x": rat(0), "y": rat(1, 65536)}, {"x": rat(4), "y": {"num": tenth.numerator, "den": tenth.denominator}},
+                              {"x": rat(123456789, 1024), "y": rat(-(2 ** 40 + 1), 2 ** 20)}])
+    default = {"none": {"k": "none"}, "poly": poly([(rat(1, 2), 0), (rat(3), 1), (rat(-1, 4), 2)]), "spline": spl,
+               "poly-many-digits": long_poly, "spline-many-digits": long_spl}[dc]
     cc = g("ContextCalibratorList", "none")
     ctxs = []
     cm = g("ContextMatch", "comparisons")
@@ -119,7 +127,10 @@ def lattice_defn(points):
           "or-of-two-ands": {"k": "or", "conds": [], "groups": [{"k": "and", "conds": [pp, pl], "groups": []}, {"k": "and", "conds": [pq, pl], "groups": []},
                                                                  {"k": "and", "conds": [pp, pq], "groups": []}]}}[shape]
     xdoc.add_param(d, "BXV", uint(8))
-    xdoc.add_container(d, "BX", [("p", "BXV")], base="MAIN", crit_list=[bx])
+    # fields that are not a whole number of bytes keep their declared byte order too
+    xdoc.add_param(d, "ODD12", uint(12, g("IntegerDataEncoding.encoding", "unsigned"), g("NumericDataEncoding.byteOrder", "msb")))
+    xdoc.add_param(d, "ODD4", uint(4, "unsigned", g("NumericDataEncoding.byteOrder", "msb")))
+    xdoc.add_container(d, "BX", [("p", "BXV"), ("p", "ODD12"), ("p", "ODD4")], base="MAIN", crit_list=[bx])
     return d
 
 
